@@ -37,8 +37,13 @@ FIRST_LINES = ["", "one", "two words", "many words in  a row "]
 
 
 def gen(ctx):
-    from gen import c08_unicode
+    from gen import c08_unicode, c08_dirsrc
+    from lib import common
     c08_unicode.generate(ctx)
+    # source-translation tie: the four functions of directives.py regenerated as Gallina (fail-closed)
+    text = c08_dirsrc.generate(common.REPO)
+    changed = common.write_if_changed(common.COQ / "Gen" / "DirSrc.v", text)
+    ctx.gen_info["DirSrc"] = {"lines": text.count("\n"), "rewritten": changed}
     ctx.gen_info["sources"] = src_hashes(["myst_parser/parsers/directives.py"])
 
 
